@@ -321,7 +321,7 @@ func CheckC15(opt C15Options) int {
 	var items []item
 	kSmall, nLarge, kLarge, fine, realEvery := 32, 400, 4, 10, 6
 	if opt.Tier == "thorough" {
-		kSmall, nLarge, kLarge, fine, realEvery = 400, 10000, 10, 25, 8
+		kSmall, nLarge, kLarge, fine, realEvery = 160, 4000, 8, 25, 8
 	}
 	mk := func(g *Graph, pl Plan, tools string) item {
 		return item{g, Unit{Project: g.Project(), Backend: "native", Plan: pl, KeepGen: true, Tools: tools}}
